@@ -130,7 +130,7 @@ PROPERTIES = {
     },
     "C11": {
         "level": "proof",
-        "verus_units": ["arith_widen", "arith128", "widediv", "nofrac", "fracops", "round@*", "transc", "leaves", "cmp@*", "fromfixed@*", "fromfloat@*"],
+        "verus_units": ["arith_widen", "arith128", "widediv", "nofrac", "fracops", "round@*", "transc", "leaves", "cmp@*", "fromfixed@*", "fromfloat@*", "wrapping", "traitfwd@*"],
         "kani": [{"harness": h, "classes": ["panic"]} for h in
                  _mods("arith8", ["i4f4", "i0f8", "u4f4", "u0f8"], FORMS) + ["arith8::abs_forms_i8"] + TFH
                  + ["float::check_to_f32", "float::check_to_f64", "float::check_kind_f32", "float::check_kind_f64"]
@@ -199,12 +199,27 @@ PROPERTIES = {
     },
     "C18": {
         "level": "proof",
+        "verus_units": ["wrapping", "traitfwd@*", "nofrac", "fracops", "round@*"],
         "kani": _mods("wrap8", ["i4f4", "i0f8", "u4f4", "u0f8"], ["arith_ops", "bit_and_shift_ops", "rounding_and_conversion"])
                 + ["wrap8::i4f4::ref_and_assign_forms", "wrap8::u4f4::ref_and_assign_forms"]
                 + ["wrap8::signed_only_ops", "wrap8::fold_i4f4", "wrap8::fold_i1f7", "wrap8::fold_i0f8", "wrap8::fold_u0f8", "wrap8::fold_u4f4"],
         "kani_thorough": _mods("wrap8", ["i8f0", "u8f0"], ["arith_ops", "bit_and_shift_ops", "rounding_and_conversion"]),
-        "explanation": "every Wrapping<F> operator and method on 8-bit layouts equals the exact result modulo 2^8 and the wrapping_* form of F",
-        "bounded_parts": ["Wrapping<F> is generic; harnesses instantiate F at six 8-bit layouts; sum/product over at most 3 elements"],
+        "explanation": "Verus, generic over F: every operator impl (6 forms each of + - * / %, 6 forms of & | ^, !, unary -, 288 shift impls by the 12 "
+                       "primitive integer types) and 32 inherent methods of Wrapping<F> are verified against the trait-level contracts of Fixed "
+                       "(exact result modulo 2^w; shift amount reduced modulo the bit width of F); unit traitfwd@<family> proves that each family's "
+                       "`impl Fixed/FixedSigned/FixedUnsigned` forwarder meets those trait-level contracts from the inherent-method contracts, and the "
+                       "18 integer-right-hand-side impls per family; units nofrac/fracops/round prove the inherent wrapping_* methods.  Kani: the same "
+                       "operators on 8-bit layouts end to end, plus sum/product and parsing forwarders",
+        "bounded_parts": ["Sum/Product (iterator folds) and the from_str* forwarders (`Result::map(Wrapping)`): Kani on 8-bit layouts only, folds over at most 3 elements",
+                          "next_power_of_two (Option::unwrap_or_default): Kani wrap8 only"],
+        "assumptions": ["trait-level contracts of `Fixed` (contracts/fixed_trait.inc) are assumed by unit wrapping and proved per family by unit traitfwd",
+                        "methods whose inherent contract is not mathematical here (count_ones.., rotate_*, wrapping_div_euclid*, wrapping_rem_euclid_int, "
+                        "is_power_of_two, `fixed % integer`) are only required to be deterministic functions of their arguments (uninterpreted spec "
+                        "functions): for them Verus proves the forwarding, Kani wrap8/rem8 the values",
+                        "bit operators and shifts of Wrapping<F> are generic over ANY F with that operator: the postcondition is stated over F's own "
+                        "operator spec (vstd *Spec traits); shifts require size_of::<F>() in {1,2,4,8,16}",
+                        "#[repr(transparent)] layout of Wrapping<F> (axiom ax_transparent, guarded by a source-text check)",
+                        "ToFixed for i32 (the literal type used by signum) is assumed: integer source, exact value wrapped (impl_int!; kani conv8)"],
     },
 }
 HOOK_COMMITS = ["52f3d97"]
